@@ -63,12 +63,19 @@ SCN["catch"] = ({"StartAt": "T", "States": {
     #  name is carried into the output)
     "R": {"Type": "Pass", "Parameters": {"x.$": "$.x", "caught.$": "$.err.Error", "r": "recovered"}, "End": True},
     "Z": {"Type": "Pass", "End": True}}}, ["f"])
+# a parent whose Task launches a child execution and waits for it (.sync:2); the child does one Task of its own
+SCN["child"] = ({"StartAt": "T", "States": {
+    "T": {"Type": "Task", "Resource": "arn:aws:states:local::states:startExecution.sync:2", "ResultPath": "$.c", "Next": "Z",
+          "Parameters": {"StateMachineArn": "arn:aws:states:local:0123456789:stateMachine:child", "Input": {"i.$": "$.x"}}},
+    "Z": {"Type": "Pass", "Parameters": {"out.$": "$.c.Output"}, "End": True}}}, ["g"])
+CHILDREN = {"child": [("child", {"StartAt": "G", "States": {"G": scn.task("g", ResultPath="$.g", End=True)}})]}
+
 WORKERS = {"retry": _flaky_workers, "catch": lambda: {"f": (lambda req: {"errorType": "Boom", "errorMessage": "m"})}}
-DATA = {"chain": {"x": 1}, "wait": {"x": 1}, "par": {"x": 1}, "map": {"items": [{"i": 0}, {"i": 1}]}, "parnext": {"x": 1}, "retry": {"x": 1}, "catch": {"x": 1}}
+DATA = {"child": {"x": 1}, "chain": {"x": 1}, "wait": {"x": 1}, "par": {"x": 1}, "map": {"items": [{"i": 0}, {"i": 1}]}, "parnext": {"x": 1}, "retry": {"x": 1}, "catch": {"x": 1}}
 # The volatile-join-results known finding applies only where a result cannot be recomputed from the
 # redelivered (held) branch event: Task-produced results, completed MaxConcurrency batches, End:true joins
 # (events acknowledged before the terminal record).  Pass-only branches joined by a state with Next recover.
-JOIN_LOSS_POSSIBLE = {"chain": False, "wait": False, "par": True, "map": True, "parnext": False, "retry": False, "catch": False}
+JOIN_LOSS_POSSIBLE = {"child": False, "chain": False, "wait": False, "par": True, "map": True, "parnext": False, "retry": False, "catch": False}
 
 
 def run_with_crash(name, mode, crash_at, picks, second=None, store="simple", exec_name="e1"):
@@ -78,6 +85,8 @@ def run_with_crash(name, mode, crash_at, picks, second=None, store="simple", exe
     sim.reset()
     dur = sim.Durable(store)
     arn = dur.add_machine(asl)
+    for cname, casl in CHILDREN.get(name, []):
+        dur.add_machine(casl, name=cname)
     inst = sim.Instance(dur)
     workers = WORKERS[name]() if name in WORKERS else {q: (lambda req: {"ok": req}) for q in wq}
     run = sim.Run(picks, workers, max_steps=200)
@@ -143,6 +152,9 @@ def run_with_crash(name, mode, crash_at, picks, second=None, store="simple", exe
         while run.steps < run.max_steps and run.step(None):
             pass
     terms = sim.terminals()
+    if name in CHILDREN:
+        # the verdict is about the parent execution (the child's outcome reaches it through the Task's result)
+        terms = [t for t in terms if ":execution:m:" in t["executionArn"]]
     return run, terms, crashes[0]
 
 
@@ -272,6 +284,8 @@ _mk("catch", ("quick", "thorough"))
 _mk_redis("chain", ("quick", "thorough"))
 _mk_redis("retry", ("quick", "thorough"))
 _mk_redis("parnext", ("thorough",))
+_mk("child", ("quick", "thorough"))
+_mk_redis("child", ("quick", "thorough"))
 
 
 # ---------------------------------------------------------------------------
